@@ -455,19 +455,30 @@ def compose(chk, repo):
            "fmmu_maps")
     af = repo.func(C + "SterilePacket.append_fmmu")
     chk.analysed(C + "SterilePacket.append_fmmu")
-    ok = bool(find("self.append(ECCmd.LRD, b'\\x00' * self.fmmu_in_size, 0, "
-                   "self.next_logical_addr, counter=self.fmmu_in_count)", af))
-    chk.ob("R18.2", C + "SterilePacket.append_fmmu", "LRD datagram sized by "
-           "the input accumulator, expecting one count per terminal", ok, af,
-           "at the window base")
-    ok = bool(find("self.append_writer(ECCmd.LWR, b'\\x00' * "
-                   "self.fmmu_out_size, 0, self.next_logical_addr + "
-                   "self.logical_addr_inc, counter=self.fmmu_out_count)",
-                   af))
-    chk.ob("R18.2", C + "SterilePacket.append_fmmu", "LWR writer datagram "
-           "sized by the output accumulator at base + logical_addr_inc", ok,
-           af, "registered as writer")
+    ok1 = bool(find("self.append(ECCmd.LRD, b'\\x00' * self.fmmu_in_size, 0,"
+                    " self.next_logical_addr, counter=self.fmmu_in_count)",
+                    af))
+    ok2 = bool(find("self.append_writer(ECCmd.LWR, b'\\x00' * "
+                    "self.fmmu_out_size, 0, self.next_logical_addr + "
+                    "self.logical_addr_inc, counter=self.fmmu_out_count)",
+                    af))
     cfg = CFG(af)
+    rets = [n for n in cfg.nodes if n.kind == "return"]
+    ok3 = len(rets) == 1 and match(
+        "(fmmu_in_pos, fmmu_out_pos, self.next_logical_addr, "
+        "self.next_logical_addr + self.logical_addr_inc)",
+        rets[0].stmt.value) is not None
+    append_fmmu_exec(chk, repo, af)
+    if not (ok1 and ok2 and ok3):
+        # not the spelling known here: the abstract execution over a grid of
+        # accumulator values stands alone
+        return compose_rest(chk, repo)
+    chk.ob("R18.2", C + "SterilePacket.append_fmmu", "LRD datagram sized by "
+           "the input accumulator, expecting one count per terminal", ok1,
+           af, "at the window base")
+    chk.ob("R18.2", C + "SterilePacket.append_fmmu", "LWR writer datagram "
+           "sized by the output accumulator at base + logical_addr_inc", ok2,
+           af, "registered as writer")
     rets = [n for n in cfg.nodes if n.kind == "return"]
     ok = len(rets) == 1 and match(
         "(fmmu_in_pos, fmmu_out_pos, self.next_logical_addr, "
@@ -486,20 +497,221 @@ def compose(chk, repo):
     chk.ob("R18.2", C + "SterilePacket.append_fmmu", "returned positions "
            "are the packet sizes right before the LRD / LWR datagrams", ok,
            af, "fmmu_in_pos / fmmu_out_pos = self.size before each append")
+    compose_rest(chk, repo)
+
+
+def append_fmmu_exec(chk, repo, af):
+    """SterilePacket.append_fmmu by abstract execution: for accumulator
+    values on a grid the packet afterwards holds an LRD datagram of the input
+    size at the window base (expecting the input count), a sterilised LWR
+    datagram of the output size one window above (expecting the output
+    count), neither when the size is 0, and the positions returned are
+    where these datagrams start"""
+    sp = repo.cls(C + "SterilePacket")
+    ev = Evaluator(repo, sp.module, sp)
+    try:
+        inc = ev.class_attr(sp, "logical_addr_inc")
+    except Unknown as e:
+        raise AnalysisError(f"logical_addr_inc: {e}")
+    bad = []
+    rows = 0
+    for isz in (0, 1, 5, 600):
+        for osz in (0, 2, 7, 600):
+            for icnt, ocnt in ((0, 0), (1, 3), (4, 2)):
+                for laddr in (0x40000, 0x7f800):
+                    for pre in (0, 1):
+                        rows += 1
+                        try:
+                            me = ev.construct(sp, [], {})
+                            if pre:
+                                ev.call(ev.getattr(me, "append"), [
+                                    ev.eval(ast.parse(
+                                        "ECCmd.FPRD", mode="eval").body),
+                                    b"ab", 0, 3, 0x130])
+                            me.fields.update(
+                                fmmu_in_size=isz, fmmu_out_size=osz,
+                                fmmu_in_count=icnt, fmmu_out_count=ocnt)
+                            n0 = len(me.fields["data"])
+                            f0 = len(me.fields["on_the_fly"])
+                            size0 = me.fields["size"]
+                            ret = ev.call(ev.getattr(me, "append_fmmu"),
+                                          [laddr])
+                        except (Unknown, Raised, KeyError) as e:
+                            raise AnalysisError(
+                                f"{sp.qualname}.append_fmmu: cannot be "
+                                f"evaluated: {e}")
+                        tag = (f"in {isz}/{icnt}, out {osz}/{ocnt}, base "
+                               f"{laddr:#x}")
+                        want = []
+                        pos = size0
+                        ipos = pos
+                        if isz:
+                            want.append(("LRD", isz, icnt, 0, (laddr,)))
+                            pos += 12 + isz
+                        opos = pos
+                        fly = []
+                        if osz:
+                            want.append(("LWR", osz, ocnt, 0,
+                                         (laddr + inc,)))
+                            fly.append((pos, pos + 12 + osz, "LWR"))
+                            pos += 12 + osz
+                        got = [(d[0].name, len(d[1]), d[2], d[3],
+                                tuple(d[4:])) for d in
+                               me.fields["data"][n0:]]
+                        zero = all(not any(d[1]) for d in
+                                   me.fields["data"][n0:])
+                        gfly = [(a, b, c.name) for a, b, c in
+                                me.fields["on_the_fly"][f0:]]
+                        cnt = me.fields.get("counters", {})
+                        if got != want or not zero:
+                            bad.append(f"{tag}: datagrams {got}, expected "
+                                       f"{want}")
+                        elif gfly != fly:
+                            bad.append(f"{tag}: sterilised {gfly}, "
+                                       f"expected {fly}")
+                        elif ret != (ipos, opos, laddr, laddr + inc):
+                            bad.append(f"{tag}: returns {ret}, expected "
+                                       f"{(ipos, opos, laddr, laddr + inc)}")
+                        elif (isz and cnt.get(ipos + 10 + isz) != icnt) or (
+                                osz and cnt.get(opos + 10 + osz) != ocnt):
+                            bad.append(f"{tag}: expected working counters "
+                                       f"{cnt}")
+    chk.ob("R18.2", C + "SterilePacket.append_fmmu", f"LRD at the window "
+           f"base, sterilised LWR one window above, sized by the "
+           f"accumulators, positions returned ({rows} cases by abstract "
+           f"execution)", not bad, af, "; ".join(bad[:3]) or
+           "datagrams, positions and expected counters as described")
+
+
+def compose_rest(chk, repo):
     si = repo.func(C + "SterilePacket.__init__")
-    ok = bool(find("self.fmmu_out_size = self.fmmu_in_size = 0", si,
-                   mode="stmt")) and bool(find(
-        "self.fmmu_out_count = self.fmmu_in_count = 0", si, mode="stmt"))
+    sp = repo.cls(C + "SterilePacket")
+    try:
+        me = Evaluator(repo, sp.module, sp).construct(sp, [], {})
+    except (Unknown, Raised) as e:
+        raise AnalysisError(f"{sp.qualname}(): cannot be evaluated: {e}")
+    ok = all(me.fields.get(a) == 0 and type(me.fields.get(a)) is int
+             for a in ("fmmu_out_size", "fmmu_in_size", "fmmu_out_count",
+                       "fmmu_in_count"))
     chk.ob("R18.2", C + "SterilePacket.__init__", "accumulators start at 0",
            ok, si, "sizes and counts")
-    mf = repo.func("ebpfcat.ethercat.Terminal.map_fmmu")
-    ok = bool(find("size = self.pdo_out_sz", mf, mode="stmt")) and bool(find(
-        "size = self.pdo_in_sz", mf, mode="stmt")) and bool(find(
-        "self.write(1536 + 16 * index, 'IHBBHBBB3x', logical, size, 0, 7, "
-        "offset, 0, 2 if write else 1, 1)", mf))
-    chk.ob("R18.2", "ebpfcat.ethercat.Terminal.map_fmmu", "the FMMU maps "
-           "exactly pdo_*_sz bytes at the logical address", ok, mf,
-           "length = the size the allocator advanced by")
+    fmmu_registers(chk, repo, "R18.2")
+
+
+def fmmu_registers(chk, repo, rule, tables=None):
+    """Terminal.map_fmmu by abstract execution: the register block written
+    before the yield, decoded by the ESC's FMMU layout (logical start u32,
+    length u16, start bit, stop bit, physical start u16, physical start
+    bit, type, activate), maps exactly pdo_*_sz bytes of the direction asked
+    for at the logical address, in the slot whose number is yielded"""
+    import struct
+    tc = repo.cls("ebpfcat.ethercat.Terminal")
+    mf = repo.func(tc.qualname + ".map_fmmu")
+    chk.analysed(tc.qualname + ".map_fmmu")
+    bad = []
+    rows = 0
+    for write in (True, False):
+        for used in tables or ([None, None], [None, None, None, None],
+                               [None], [0x5000, None, None],
+                               [None, None, 0x7000]):
+            for logical in (0x40000, 0x40800, 0):
+                rows += 1
+                log = []
+
+                def wr(addr, *args, data=None, _log=log):
+                    _log.append(("write", addr, args, data))
+                    return None
+                me = Obj(tc, {"pdo_out_off": 0x1000, "pdo_out_sz": 5,
+                              "pdo_in_off": 0x1180, "pdo_in_sz": 9,
+                              "fmmu_used": list(used), "position": 3,
+                              "write": ("hook", wr)})
+                ev = Evaluator(repo, mf._module, tc, funcs={
+                    "__yield__": lambda v, _log=log, _me=None: _log.append(
+                        ("yield", v, list(me.fields["fmmu_used"])))})
+                tag = (f"write={write}, logical {logical:#x}, table "
+                       f"{used}")
+                try:
+                    ev.call_function(mf, [me, logical, write], cls=tc)
+                except Unknown as e:
+                    raise AnalysisError(f"{tc.qualname}.map_fmmu: cannot be "
+                                        f"evaluated: {e}")
+                except Raised as e:
+                    # failing is right when no FMMU is free (for outputs:
+                    # none of the first two, the only ones searched)
+                    if None in (used[:2] if write else used):
+                        bad.append(f"{tag}: fails ({e.what}) although a "
+                                   f"slot is free")
+                    elif me.fields["fmmu_used"] != used or log:
+                        bad.append(f"{tag}: fails but leaves table "
+                                   f"{me.fields['fmmu_used']} / wrote "
+                                   f"{len(log)} registers")
+                    continue
+                ys = [i for i, x in enumerate(log) if x[0] == "yield"]
+                if len(ys) != 1 or not isinstance(log[ys[0]][1], int):
+                    bad.append(f"{tag}: yields {[log[i][1] for i in ys]}")
+                    continue
+                idx = log[ys[0]][1]
+                image = {}
+                try:
+                    for _, addr, args, data in log[:ys[0]]:
+                        blob = b""
+                        if args:
+                            fmt = args[0]
+                            blob = struct.pack("<" + fmt, *args[1:])
+                        if isinstance(data, (bytes, bytearray)):
+                            blob += bytes(data)
+                        elif isinstance(data, int):
+                            blob += bytes([data])
+                        for k, byte in enumerate(blob):
+                            image[addr + k] = byte
+                except (struct.error, TypeError) as e:
+                    bad.append(f"{tag}: register write not packable: {e}")
+                    continue
+                base = 0x600 + 0x10 * idx
+                blk = bytes(image.get(base + k, 0) for k in range(16))
+                stray = sorted(a for a in image if not base <= a < base + 16)
+                want = struct.pack(
+                    "<IHBBHBBB3x", logical, 5 if write else 9, 0, 7,
+                    0x1000 if write else 0x1180, 0, 2 if write else 1, 1)
+                during = log[ys[0]][2]
+                after = {}
+                for _, addr, args, data in log[ys[0] + 1:]:
+                    try:
+                        blob = struct.pack("<" + args[0], *args[1:]) \
+                            if args else b""
+                    except (struct.error, TypeError):
+                        blob = b""
+                    if isinstance(data, int):
+                        blob += bytes([data])
+                    for k, byte in enumerate(blob):
+                        after[addr + k] = byte
+                if not (0 <= idx < len(used)) or used[idx] is not None:
+                    bad.append(f"{tag}: slot {idx} was not free in {used}")
+                elif during[idx] != logical or [
+                        x for i, x in enumerate(during) if i != idx] != [
+                        x for i, x in enumerate(used) if i != idx]:
+                    bad.append(f"{tag}: table while mapped {during}")
+                elif me.fields["fmmu_used"] != used:
+                    bad.append(f"{tag}: table afterwards "
+                               f"{me.fields['fmmu_used']}, was {used}")
+                elif after.get(base + 0xc) != 0:
+                    bad.append(f"{tag}: FMMU {idx} not deactivated on "
+                               f"leaving (writes after the yield: "
+                               f"{ {hex(a): v for a, v in after.items()} })")
+                elif blk != want or stray:
+                    g = struct.unpack("<IHBBHBBB3x", blk)
+                    bad.append(f"{tag}: FMMU {idx} configured as (logical, "
+                               f"length, bit0, bit7, physical, bit, type, "
+                               f"active) = {g}, expected "
+                               f"{struct.unpack('<IHBBHBBB3x', want)}" + (
+                                   f"; writes outside the block at "
+                                   f"{[hex(a) for a in stray[:3]]}"
+                                   if stray else ""))
+    chk.ob(rule, tc.qualname + ".map_fmmu", f"the FMMU maps exactly "
+           f"pdo_*_sz bytes of the requested direction at the logical "
+           f"address ({rows} cases by abstract execution)", not bad, mf,
+           "; ".join(bad[:3]) or "length = the size the allocator advanced "
+           "by; register image decoded by the ESC layout")
 
 
 def windows(chk, repo):
